@@ -168,6 +168,38 @@ int main(int argc, char **argv)
                                 }
                 }
         }
+        /* ---- key expansion: key and both schedules end at / begin after an unmapped page; sse and avx agree; key unmodified ---- */
+        {
+                void _aes_keyexp_128_sse(const uint8_t *, uint8_t *, uint8_t *); void _aes_keyexp_128_avx(const uint8_t *, uint8_t *, uint8_t *);
+                void _aes_keyexp_192_sse(const uint8_t *, uint8_t *, uint8_t *); void _aes_keyexp_192_avx(const uint8_t *, uint8_t *, uint8_t *);
+                void _aes_keyexp_256_sse(const uint8_t *, uint8_t *, uint8_t *); void _aes_keyexp_256_avx(const uint8_t *, uint8_t *, uint8_t *);
+                typedef void (*kx_fn)(const uint8_t *, uint8_t *, uint8_t *);
+                kx_fn kx[2][3] = { { _aes_keyexp_128_sse, _aes_keyexp_192_sse, _aes_keyexp_256_sse }, { _aes_keyexp_128_avx, _aes_keyexp_192_avx, _aes_keyexp_256_avx } };
+                const unsigned kbytes[3] = { 16, 24, 32 }, sched[3] = { 16 * 11, 16 * 13, 16 * 15 };
+                static uint8_t e0[240], d0[240];
+                struct region R_e = mk(), R_d = mk();
+                for (int fam = 0; fam < 2; fam++) {
+                        if (!supported(fam ? "avx" : "sse")) continue;
+                        for (int k = 0; k < 3; k++)
+                                for (int mode = 0; mode < 2; mode++)
+                                        for (int rep = 0; rep < 50; rep++) {
+                                                for (unsigned i = 0; i < 32; i++) key[i] = (uint8_t) rnd();
+                                                uint8_t *pk = place(R_k1, kbytes[k], mode), *pe = place(R_e, sched[k], mode), *pd = place(R_d, sched[k], mode);
+                                                memcpy(pk, key, kbytes[k]);
+                                                kx[0][k](key, e0, d0); /* reference run: sse family, roomy buffers */
+                                                cases++;
+                                                if (sigsetjmp(jb, 1)) {
+                                                        printf("FAULT keyexp %s AES-%d placement=%s: access at %p outside the caller's ranges (key %p..+%u, enc %p..+%u, dec %p)\ncases=%lu\n",
+                                                               fam ? "avx" : "sse", kbits[k], mode ? "begins-after-unmapped" : "ends-at-unmapped", (void *) fault_addr, pk, kbytes[k], pe, sched[k], pd, cases);
+                                                        return 1;
+                                                }
+                                                kx[fam][k](pk, pe, pd);
+                                                if (memcmp(pk, key, kbytes[k])) { printf("MODIFIED-INPUT keyexp AES-%d\ncases=%lu\n", kbits[k], cases); return 1; }
+                                                if (memcmp(pe, e0, sched[k]) || memcmp(pd, d0, sched[k])) {
+                                                        printf("DIFFERENT-RESULT keyexp %s AES-%d: schedule differs from the sse family / roomy run\ncases=%lu\n", fam ? "avx" : "sse", kbits[k], cases); return 1; }
+                                        }
+                }
+        }
         printf("AGREE families=%u cases=%lu\n", nf, cases);
         return 0;
 }
